@@ -59,6 +59,36 @@ let handle = function
       | GV (GR r) -> "M " ^ sx r ^ " f:0 f:1"
       | GV (GC (re, im)) -> "M " ^ sx re ^ " " ^ sx im
       | GErr -> "EXC" | GFuel -> "FUEL")
+  | ["spec_cmpx2"; op; ka; na; da; kb; nb; db] ->
+     let z = z_of_hex in
+     string_of_res (spec_cmpx2 (nat_of_int (int_of_string op)) (z ka) (z na) (z da) (z kb) (z nb) (z db))
+  | ["spec_cmpx_sgn"; ka; na; da; kb; nb; db] ->
+     let z = z_of_hex in string_of_res (spec_cmpx_sgn (z ka) (z na) (z da) (z kb) (z nb) (z db))
+  | ["spec_cmpx_all"; ka; na; da; kb; nb; db] ->
+     let z = z_of_hex in string_of_res (spec_cmpx_all (z ka) (z na) (z da) (z kb) (z nb) (z db))
+  | ["spec_cmpx3_all"; ka; na; da; kb; nb; db; kc; nc; dc] ->
+     let z = z_of_hex in
+     string_of_res (spec_cmpx3_all (z ka) (z na) (z da) (z kb) (z nb) (z db) (z kc) (z nc) (z dc))
+  | ["spec_maxmin"; op; ka; na; da; kb; nb; db] ->
+     let z = z_of_hex in
+     string_of_res (spec_maxmin (nat_of_int (int_of_string op)) (z ka) (z na) (z da) (z kb) (z nb) (z db))
+  | [("x_compare" | "vm_cmp0" | "vm_cmp1" | "vm_cmp2" | "vm_cmp3" | "vm_cmp4") as fn; ka; a1; a2; kb; b1; b2] ->
+     (* operand: n <num> - | q <num> <den> | d <bits of a finite double> - | i +/- - | x - - *)
+     let opnd k x y = (match k with
+       | "n" -> (match num_of x with Fix z -> CFix z | Big (s, d) -> CBig (s, d))
+       | "q" -> CRat (num_of x, num_of y)
+       | "d" -> (match b64_decode (z_of_hex x) with Some (m, e) -> CFlo (FFin (m, e)) | None -> failwith "not a finite double")
+       | "i" -> CFlo (FInf (x = "-"))
+       | _ -> CFlo FNan) in
+     let a = opnd ka a1 a2 and b = opnd kb b1 b2 in
+     (* fuels: 1100 is the proved bound of the conversion loops (exact_of_double_exact); the others as for g_op *)
+     let fu = nat_of_int 1100 and rf = nat_of_int 2000 and qf = nat_of_int 400 and mf = nat_of_int 4000 in
+     if fn = "x_compare" then
+       (match x_compare fu rf qf mf a b with
+        | CV Z0 -> "0" | CV (Zpos _) -> "1" | CV (Zneg _) -> "-1" | CNan -> "NAN" | CFuel -> "FUEL")
+     else
+       (match vm_cmp (nat_of_int (Char.code fn.[6] - 48)) fu rf qf mf a b with
+        | Some b -> string_of_res (Bool b) | None -> "FUEL")
   | ["spec_radix"; r; z] -> string_of_res (spec_radix (z_of_hex r) (z_of_hex z))
   | ["add_digits"; a; b] -> string_of_zlist (add_digits (zlist_of_string a) (zlist_of_string b))
   | ["sub_digits"; a; b] -> string_of_zlist (sub_digits (zlist_of_string a) (zlist_of_string b))
